@@ -3,6 +3,7 @@ package ecdsa
 import (
 	"errors"
 	"fmt"
+	"github.com/fxamacker/cbor/v2"
 
 	"github.com/taurusgroup/multi-party-sig/internal/types"
 	"github.com/taurusgroup/multi-party-sig/pkg/math/curve"
@@ -83,6 +84,21 @@ func (sig *PreSignature) VerifySignatureShares(shares map[party.ID]SignatureShar
 		}
 	}
 	return
+}
+
+// UnmarshalCBOR restores a presignature (into a value created with EmptyPreSignature) and validates it.
+func (sig *PreSignature) UnmarshalCBOR(data []byte) (err error) {
+	// a null where a point or scalar is expected makes the CBOR decoder panic
+	defer func() {
+		if rec := recover(); rec != nil {
+			err = fmt.Errorf("presignature: malformed encoding: %v", rec)
+		}
+	}()
+	type plain PreSignature // same fields, no UnmarshalCBOR
+	if err = cbor.Unmarshal(data, (*plain)(sig)); err != nil {
+		return err
+	}
+	return sig.Validate()
 }
 
 func (sig *PreSignature) Validate() error {
